@@ -292,8 +292,15 @@ func WorkerMain(t *testing.T) {
 				f.Close()
 			}
 			if dl := os.Getenv("VERIF_DIGEST_LOG"); dl != "" {
+				// one token per run: the execution digest plus the verdicts (sorted fingerprints), so that the
+				// determinism self-test also covers the oracles
+				var fps []string
+				for _, v := range o.Violations {
+					fps = append(fps, v.Fingerprint())
+				}
+				sort.Strings(fps)
 				f, _ := os.OpenFile(dl, os.O_APPEND|os.O_CREATE|os.O_WRONLY, 0644)
-				fmt.Fprintf(f, "%s\n", o.Digest)
+				fmt.Fprintf(f, "%s/%s\n", o.Digest, strings.ReplaceAll(strings.Join(fps, "&"), " ", "_"))
 				f.Close()
 			}
 			sum.Runs++
